@@ -10,12 +10,14 @@ import re
 import shutil
 import subprocess
 import sys
+import threading
 import time
 
 from . import common
 from .common import log, ToolError
 
 EXE = "pvh_pipeline"
+RUN_FORMAT = 4      # bump when the way cases are assembled / rendered in this file changes
 THREADS = os.environ.get("PVH_THREADS", "6")
 TLC_WORKERS = int(os.environ.get("PIPELINE_TLC_WORKERS", "4"))
 
@@ -49,7 +51,7 @@ def harness_state():
         h.update(open(os.path.join(base, rel), "rb").read())
     for rel in ["PipelineTokens.tla", "MC_Pipeline.tla", "Pipeline.tla"]:
         h.update(open(os.path.join(common.SPEC, rel), "rb").read())
-    h.update(open(os.path.abspath(__file__), "rb").read())
+    h.update(json.dumps([RUN_FORMAT, TIERS], sort_keys=True).encode())
     return h.hexdigest()[:10]
 
 
@@ -254,10 +256,13 @@ class Cases:
                 self.offsets[m.group(1).decode()] = pos
                 pos += len(line)
         self.f = open(path, "rb")
+        self.lock = threading.Lock()
 
     def __getitem__(self, cid):
-        self.f.seek(self.offsets[cid])
-        return json.loads(self.f.readline())
+        with self.lock:
+            self.f.seek(self.offsets[cid])
+            line = self.f.readline()
+        return json.loads(line)
 
     def __contains__(self, cid):
         return cid in self.offsets
